@@ -2,6 +2,8 @@
 # tools/run_mutant.sh <patch> <ID> [<ID2>...]  — apply a seeded patch to /repo, run the quick checks, undo it.
 # The evidence files and regenerated Lean tables of the unchanged tree are saved and restored (a mutant run rewrites them).
 patch=$1; shift
+# one mutation window in /repo at a time (builders use the same lock)
+exec 9>/var/tmp/repo-mutation.lock; flock 9
 cd /repo && git apply --check "$patch" || { echo "PATCH DOES NOT APPLY"; exit 2; }
 git apply "$patch"
 bak=$(mktemp -d /var/tmp/runmut.XXXX)
